@@ -312,6 +312,16 @@ def designed_docs():
             ("offset-binding", load_snippet("STYLE OFFSET [a] 2 END")),
             ("hidden-config", CI(CI, [("__type__", "map"), ("config", CI(CI, [("__x__", "y"), ("a", "b")]))])),
             ("hidden", CI(CI, [("__type__", "layer"), ("__position__", {"line": 1}), ("__tokens__", ["x"]), ("name", "x"), ("__x__", "y")]))]
+    # user-defined hidden keys inside every kind of key-value block (reachable only through the dictionary API)
+    m = load_snippet("MAP WEB METADATA 'a' 'b' END END LAYER NAME 'x' VALIDATION 'k' 'v' END CONNECTIONOPTIONS 'o' 'p' END END END")
+    m["web"]["metadata"]["__source__"] = "x"
+    m["layers"][0]["validation"]["__note__"] = "n"
+    m["layers"][0]["connectionoptions"]["__opt__"] = "q"
+    docs.append(("hidden-keyvalue-blocks", m))
+    docs.append(("hidden-metadata-root", CI(CI, [("__type__", "metadata"), ("__x__", "y"), ("a", "b")])))
+    st = load_snippet("SCALETOKEN NAME '%pri%' VALUES '0' 'ten' '1000' 'thousand' END END")
+    st["values"]["__unit__"] = "m"
+    docs.append(("hidden-values", st))
     l = load_snippet("LAYER NAME 'x' END")
     _ = l["group"]
     docs.append(("autocreated-nonenum", l))
